@@ -26,6 +26,10 @@ at the top-level directory.
 #include "slu_mt_ddefs.h"
 
 
+#ifdef SLU_MT_VERIF
+void (*slu_mt_verif_cb)(int ev, long pnum, long a, long b, long c, const void *p) = 0;
+#endif
+
 void superlu_abort_and_exit(char* msg)
 {
     fprintf(stderr,"%s\n", msg);
